@@ -224,6 +224,13 @@ def r11_2(ctx):
         b, bb, via = b0, bb0, None
         caps = [(cb, ct) for cb, ct in b.calls() if is_cap(ct) and b.dominates(cb, bb) and cb != bb]
         if not caps:
+            # `let de_err = custom(&ser_err); state.capture_error(Ser, ser_err); return Err(de_err)`: the synthetic
+            # error is built first (it quotes the real one, which the capture then takes by value) and the capture
+            # follows on every path from there to a return
+            after = [(cb, ct) for cb, ct in b.calls() if is_cap(ct) and b.dominates(bb, cb) and cb != bb]
+            if after and not any(rb in b.reachable_from(bb, removed_nodes=[cb for cb, _ in after]) for rb in b.return_blocks()):
+                caps = after
+        if not caps:
             b, bb, via = _lift(lib, b0, bb0)
             caps = [(cb, ct) for cb, ct in b.calls() if is_cap(ct) and b.dominates(cb, bb) and cb != bb]
         k = f"{b.raw.get('impl_self_adt', '').rsplit('::', 1)[-1]}::{b.name}"
@@ -363,6 +370,41 @@ def r11_3(ctx):
                                     fields.add(stp[1])
             ok2 = bool(tp and tp[1].count("{}") == 2) and fields == {"0", "1"}
             det = f"template {tp[1] if tp else None!r} with fields {sorted(fields)}"
+    if not ok2:
+        # the other way to keep the cause in the message: the two-field arm prints the deserializer error alone, and
+        # every synthetic deserializer error that stands in for a serializer failure quotes that failure
+        # (`de::Error::custom(&ser_err)` next to `capture_error(Ser, ser_err)`)
+        delegates = False
+        for bb, t in d.calls():
+            f = fn_of(t) or {}
+            if f.get("name") == "fmt" and f.get("trait") in ("std::fmt::Display",) and d.edge_dominates(0, two["idx"], tg2, bb) and t["args"]:
+                ft = trace(d, t["args"][0])
+                fs_ = [stp[1] for stp in ft.steps if stp[0] == "field" and stp[2] == err_adt]
+                delegates = fs_ == ["1"]
+        if delegates:
+            capf, st_, src_enum_ = _capture_fn(lib)
+            bad_sites = []
+            n_sites = 0
+            for b0, bb0, t in _custom_sites(lib, "serde::de::Error", capf.file):
+                caps_ = [(cb, ct) for cb, ct in b0.calls() if ((fn_of(ct) or {}).get("resolved") or (fn_of(ct) or {}).get("def")) == capf.id and (b0.dominates(cb, bb0) or b0.dominates(bb0, cb)) and cb != bb0 and _is_ser(lib, src_enum_, b0, ct["args"][1])]
+                if not caps_:
+                    continue  # not a stand-in for a serializer failure (R11.2 judges it)
+                n_sites += 1
+                at = trace(b0, t["args"][0])
+                quoted = None
+                if at.origin and at.origin[0] in ("arg", "multi", "call", "rvalue", "agg", "partial"):
+                    quoted = (at.origin[0], at.origin[1] if not isinstance(at.origin[1], dict) else id(at.origin[1]))
+                same = False
+                for cb, ct in caps_:
+                    et = trace(b0, ct["args"][2])
+                    eo = (et.origin[0], et.origin[1] if not isinstance(et.origin[1], dict) else id(et.origin[1])) if et.origin else None
+                    if quoted is not None and eo == quoted:
+                        same = True
+                if not same:
+                    bad_sites.append(site(b0, bb0))
+            ok2 = n_sites >= 1 and not bad_sites
+            det = (f"the two-field arm prints the deserializer error alone, and each of the {n_sites} synthetic deserializer error(s) standing in for a serializer failure is built from that failure's own text" if ok2 else
+                   f"the two-field arm prints the deserializer error alone, but a synthetic error standing in for a serializer failure does not quote it ({bad_sites[0] if bad_sites else 'no such site'}): the serializer's reason is lost from the message")
     ctx.ob("display:two-field-arm-prints-both", ok2, site(d), det)
     ok1 = any((fn_of(t) or {}).get("trait") == "std::fmt::Display" and d.edge_dominates(0, one["idx"], tg1, bb) for bb, t in d.calls())
     ctx.ob("display:single-field-arm-delegates", ok1, site(d), "delegates to the deserializer error's Display")
